@@ -225,7 +225,7 @@ def _wrap_graphs(case):
     """(G, H) as the wrapper's own front end produces them (RDKit + MolToGraph: monitored, not verified)"""
     from synkit.IO.chem_converter import rsmi_to_graph
     if case["wrap"] == "implicit_rule":
-        from synkit.Chem.Reaction import remove_explicit_H_from_rsmi
+        from synkit.Chem.utils import remove_explicit_H_from_rsmi
         return rsmi_to_graph(remove_explicit_H_from_rsmi(case["rsmi"]))
     return rsmi_to_graph(case["rsmi"])
 
@@ -519,14 +519,15 @@ def coq_cmp(case):
 
 
 def oracle_cmp(case):
-    """the library's own comparator as the judge of 'extracting the centre of a centre changes nothing' (ITS graphs of a recognised class)"""
-    from synkit.Graph.ITS.its_decompose import compare_graphs, get_rc
+    """compare_graphs is no part of the property text: nothing is demanded of it (its answers are compared with the model); the idempotence
+    clause itself is judged, independently of the library's comparator, on the ITS graphs of a recognised class"""
+    from synkit.Graph.ITS.its_decompose import get_rc
     G1 = E.to_nx(case["X"])
     if its_class(G1) is None:
         return []
     rc = get_rc(G1)
-    if not compare_graphs(get_rc(rc), rc, list(ALL_NODE_ATTRS), list(ALL_EDGE_ATTRS)):
-        return [dict(clause="centre-idempotent", detail="compare_graphs(get_rc(get_rc(I)), get_rc(I)) on all attributes is False")]
+    if not HS.graph_eq(get_rc(rc), rc):
+        return [dict(clause="centre-idempotent", detail="get_rc(get_rc(I)) differs from get_rc(I)")]
     return []
 
 
@@ -800,9 +801,17 @@ def impl_wrap(case):
             return E.obs_its(rsmi_to_its(case["rsmi"], core=True, explicit_hydrogen=True))
         return E.obs_its(rsmi_to_its(case["rsmi"], core=case["core"]))
     if w == "implicit_rule":
-        from synkit.Rule.Modify.implict_rule import implicit_rule
+        try:
+            from synkit.Rule.Modify.implict_rule import implicit_rule
+        except ImportError:                          # a tree older than /repo fix 28c46fa: the module cannot be imported
+            return ["unimportable"]
         if case.get("style") == "pos":
             rc = implicit_rule(case["rsmi"], case["disc"], case["bal"])
+        elif case.get("style") == "default":
+            rc = implicit_rule(case["rsmi"])                                  # disconnected=True, balance_its=False
+        elif case.get("style") == "list":
+            rc = implicit_rule([case["rsmi"], case["rsmi"]], case["disc"], case["bal"])
+            return [X.obs_xits(x) for x in rc]
         else:
             rc = implicit_rule(case["rsmi"], balance_its=case["bal"], disconnected=case["disc"])
         return X.obs_xits(rc)
@@ -870,7 +879,12 @@ def coq_case(case):
                 return "tits (get_rc (fst (C01_String.h_to_explicit_its (its_construct %s %s))))" % (lg, lh)
             if w == "rsmi_to_its":
                 return "tits (%s(its_construct %s %s))" % ("get_rc " if case["core"] else "", lg, lh)
-            return "txits (get_rc_x K_default %s false (emb (its_construct_ab false %s %s %s)))" % (E.cb(case["disc"]), E.cb(case["bal"]), lg, lh)
+            try:
+                import synkit.Rule.Modify.implict_rule  # noqa: F401
+            except ImportError:
+                return None
+            t_ = "txits (get_rc_x K_default %s false (emb (its_construct_ab false %s %s %s)))" % (E.cb(case["disc"]), E.cb(case["bal"]), lg, lh)
+            return "L [%s; %s]" % (t_, t_) if case.get("style") == "list" else t_
         if case.get("raw"):
             return None
         if "X" in case and case.get("rne"):
@@ -1242,13 +1256,6 @@ def oracle_lre(case):
     ball = _ball(I, rc_nodes, len(path))
     if set(ctx.nodes) != ball:
         fails.append(dict(clause="context-atoms", detail="n_knn=-1: context atoms %r, atoms within %d bonds of the centre %r" % (sorted(ctx.nodes), len(path), sorted(ball))))
-    # renumbering the atoms (same insertion / adjacency order) renumbers the extension path and the maximum-radius context (theorem C02_extract_k_z_equivariant)
-    import networkx as nx
-    pi = {n: 2 * n + 1001 for n in I.nodes}
-    J = nx.relabel_nodes(E.to_nx(gj), pi, copy=True)
-    pathJ = RadiusExpand.longest_radius_extension(J, list(get_rc(J).nodes()))
-    if list(pathJ) != [pi[n] for n in path] or set(RadiusExpand.extract_k(J, -1).nodes) != {pi[n] for n in ctx.nodes}:
-        fails.append(dict(clause="context-renumbering", detail="after renumbering n -> 2n+1001 the extension path is %r (expected %r) / the n_knn=-1 context differs" % (list(pathJ), [pi[n] for n in path])))
     return fails
 
 
@@ -1389,7 +1396,10 @@ def oracle_wrap(case):
             fails += sides_clause(dict(rsmi=case["rsmi"]), I)
         return fails
     if w == "implicit_rule":
-        from synkit.Rule.Modify.implict_rule import implicit_rule
+        try:
+            from synkit.Rule.Modify.implict_rule import implicit_rule
+        except ImportError:
+            return []
         got = implicit_rule(case["rsmi"], case["disc"], case["bal"])
         I = ITSConstruction.ITSGraph(G, H, balance_its=case["bal"])
         bonds, atoms = ref_centre(I, list(X.DEFAULT_KEYS), case["disc"], False)
@@ -1910,9 +1920,11 @@ def gen_wrappers(rng, tier):
         src = "%s#%d" % (s_, i)
         cases.append(dict(kind="wrap-core", wrap="rsmi_to_its", rsmi=r, core=rng.random() < 0.8, src=src))
         cases.append(dict(kind="wrap-core-eh", wrap="rsmi_to_its", rsmi=r, core=True, eh=True, src=src))
-        # synkit.Rule.Modify.implict_rule.implicit_rule is not importable on the unchanged tree (ImportError: remove_explicit_H_from_rsmi
-        # is not exported by synkit.Chem.Reaction), so that wrapper cannot be exercised; its body is get_rc(ITSGraph(r, p, balance_its=...),
-        # disconnected=...), which the option populations cover.  (impl_wrap / oracle_wrap keep the branch for the day it is repaired.)
+        # synkit.Rule.Modify.implict_rule.implicit_rule(rsmi, disconnected=True, balance_its=False): importable since /repo fix 28c46fa (round 5);
+        # its body is get_rc(ITSGraph(r, p, balance_its=...), disconnected=...) on the hydrogen-stripped reaction
+        st = rng.choice(("pos", "kw", "default", "list"))
+        cases.append(dict(kind="wrap-implicit", wrap="implicit_rule", rsmi=r, src=src, style=st,
+                          disc=True if st == "default" else rng.random() < 0.5, bal=False if st == "default" else rng.random() < 0.5))
     # the hypothesis of theorem C02_explicit_h_bonds, on the real code: a hydrogen ATOM with an implicit hydrogen ("[HH]") gets an explicit H
     # neighbour and the new H-H bond enters the centre; with both hydrogens written as atoms, and without H2, nothing changes
     for i, r in enumerate(("[HH:1].[CH2:2]=[CH2:3]>>[HH:1].[CH3:2][CH2:3]", "[H:1][H:4].[CH2:2]=[CH2:3]>>[H:1][H:4].[CH3:2][CH2:3]",
